@@ -17,6 +17,7 @@ EXPLANATION = (
     "C12.D5: verifier and holder continue (no Err, no insert) when a digest matches no disclosure. "
     "The statistical indistinguishability claim (>= 200 lists, 2^-100) is a distribution over runs and is not decided."
     " C12.D1 also: with its parameter assumed an Array/Object the marker returns no unprocessed copy of it, and no builder returns (a copy of) its input container: every object is visited by the object builder."
+    " C12.D3 accepts a sort only if it orders the digests by their content (sort, sort_unstable, a key / comparator that is the string itself) or shuffles them."
 )
 ASSUMPTIONS = [
     "a lexicographic order of base64 SHA-256 digests of secret-salted inputs carries neither member order nor decoy-ness (cryptographic assumption)",
